@@ -59,6 +59,10 @@ def run(ctx: Ctx):
     check_dest_discipline(ctx, ic)
     check_or_idiom(ctx, ic)
     check_wires(ctx)
+    from . import c03
+
+    # (without TS-REPLAY: stale controls in the FINAL replay leave scratch dirty - C03 - but not the outputs wrong)
+    ctx.section(c03.check_uncompute, ctx, False)
     for name in ("compile_not", "compile_xor", "compile_and", "compile_or"):
         m = ic.methods.get(name)
         if m is None:
